@@ -108,6 +108,15 @@ def cases(spec, ctx):
             yield {"k": "rand", "shape": "domain_of_more_than_1000_objects", "world": world, "kind": "P", "cond": cond, "form": "entity",
                    "how": "let", "quant": "an", "split": False, "times": 2, "caching": True, "take_first": 0, "in_block": False,
                    "dom_mode": "normal"}
+        from .. import multi
+        for i in range(3 if spec["n"] <= 100 else 20):
+            # domains of 80-300 objects under a two-operand condition (also negated, also with a long membership container),
+            # evaluated three times
+            rng = ctx.rng("sb", spec["sub"], i)
+            sc = multi.gen_scale_case(rng, "single_big")
+            yield {"k": "rand", "shape": "domain_of_80_to_300_objects", "world": sc["world"], "kind": "P", "cond": sc["cond"],
+                   "form": rng.choice(["entity", "direct"]), "how": "let", "quant": "an", "split": rng.random() < 0.3, "times": 3,
+                   "caching": rng.random() < 0.85, "take_first": rng.choice([0, 0, 3]), "in_block": False, "dom_mode": "normal"}
         for i in range(spec["n"]):
             rng = ctx.rng("w", spec["sub"], i)
             kind = rng.choice(["P", "Q"])
